@@ -45,6 +45,26 @@ int main(int argc, char **argv) {
         s += buf;
       }
       line(s);
+      {
+        // a copy-constructed array must have the same partition: block sizes, start, owner of every index, is_mine
+        ygm::container::array<int> c(a);
+        snprintf(buf, sizeof buf, "AC %d %d %d %zu %zu %zu %zu :", R, me, len, (size_t)c.m_small_block_size,
+                 (size_t)c.m_large_block_size, (size_t)c.m_local_start_index, c.m_local_vec.size());
+        std::string sc = buf;
+        const size_t large_part = c.m_large_block_size * (size_t)(len % R);    // indices below this are in large blocks
+        std::string mc = "MC " + std::to_string(R) + " " + std::to_string(me) + " " + std::to_string(len) + " :";
+        for (int i = 0; i < len; ++i) {
+          // owner() asserts that its result is a rank; a broken copy may compute one that is not: report -1 instead of aborting
+          long o = -1;
+          if (c.m_large_block_size > 0 && (size_t)i < large_part) o = i / c.m_large_block_size;
+          else if (c.m_small_block_size > 0) o = (len % R) + (i - large_part) / c.m_small_block_size;
+          const bool safe = o >= 0 && o < R;
+          sc += " " + std::to_string(safe ? (long)c.owner(i) : -1L);
+          if (safe && c.is_mine(i)) mc += " " + std::to_string(i);
+        }
+        line(mc);
+        line(sc);
+      }
       // every index exactly once across ranks, with its global index; values are the default
       s = "F " + std::to_string(R) + " " + std::to_string(me) + " " + std::to_string(len) + " :";
       bool defaults = true;
